@@ -5,6 +5,7 @@ import (
 	"context"
 	"errors"
 	"fmt"
+	"log/slog"
 	"net"
 	"strings"
 	"sync"
@@ -334,10 +335,19 @@ func runC17Scenario(c *fw.Ctx, sc c17Scenario, seed int64) {
 		}
 		measured, what = &metaWrites, "meta-lookups"
 	case "zookeeper-errors":
-		cl.ZKErr = func() error { zks.add(); return errors.New("zk is down") }
+		// (stamped where the client starts a lookup - its log statement, in the
+		// goroutine that will wait for the answer - not where the ZooKeeper stand-in
+		// gets to run: a starved lookup goroutine may run long after the client
+		// gave that attempt up and would then look like a premature retry)
+		cl.ZKErr = func() error { return errors.New("zk is down") }
 		measured, what = &zks, "zookeeper-lookups"
 	}
-	client := gohbase.VerifNewClient(cl.ZK(), gohbase.RegionDialer(dialer), gohbase.Logger(quietLogger), gohbase.RpcQueueSize(queue),
+	logger := slog.New(&hookHandler{f: func(msg string) {
+		if msg == "looking up region server of hbase:meta" {
+			zks.add()
+		}
+	}})
+	client := gohbase.VerifNewClient(cl.ZK(), gohbase.RegionDialer(dialer), gohbase.Logger(logger), gohbase.RpcQueueSize(queue),
 		gohbase.FlushInterval(time.Millisecond), gohbase.RegionLookupTimeout(150*time.Millisecond), gohbase.RegionReadTimeout(2*time.Second))
 	ctx, cancel := context.WithTimeout(context.Background(), sc.Observe)
 	defer cancel()
